@@ -6,5 +6,13 @@ CHECKS = [
       text="Every bound, symmetry, exactness-outside-band, friction and C1 clause is a postcondition on the real function's jaxpr, discharged for all real inputs by z3 (nra); C1 is proved as agreement of value and jax.grad on every switch surface.",
       note=J_NOTE + " Convexity on R^2 uses the triangle inequality as a paper lemma over three discharged clauses. 'Within rounding of a switch' (floating point) is out of reach.",
       technique="contract-based deductive verification: jaxpr-extracted VCs of the real functions, z3 nlsat/cvc5"),
+ dict(property_id='C16',
+      text="Closest point (on segment, nearest among all segment points), signed distance (magnitude = distance to the segment on all three branches, sign = side of the outward normal), outward unit normals, penalty energy (>=0, zero iff no sample point penetrates, for an uninterpreted obstacle function) and level-set constraint values (= obstacle at the deformed sample points) are postconditions on the jaxprs of the real functions, discharged for all real inputs. Mortar-integral clauses (rigid-motion invariance, overlap length) are not yet under contract.",
+      note=J_NOTE + " Mesh-level vmap over edges is trusted JAX semantics; the per-edge kernel is what is proved (all three local sides). Mortar integrals: not covered by this check (NaN-literal/nanargmin data flow), listed in evidence.",
+      technique="contract-based deductive verification: jaxpr-extracted VCs of the real functions with an uninterpreted level set, z3 nlsat"),
+ dict(property_id='C17',
+      text="rtsafe_ is verified with an uninterpreted C1 function f in a NaN-aware interpretation of its real jaxpr: the while loop is cut with an inductive invariant (bracket sign change, iterate inside the bracket, residual = f(iterate), converged => tolerance disjunct, unbracketed => NaN forever, end-point root kept), checked for an arbitrary iteration; postconditions follow from invariant and exit condition; the derivative through find_root is proved equal to the implicit-function-theorem value.",
+      note=J_NOTE + " NaN/undefined propagation is modelled (x/0, comparisons with NaN); f total on reals. Termination/rate is not proved: an unconverged exit returns NaN, which the contract allows.",
+      technique="contract-based deductive verification: loop invariant + VC generation over the real jaxpr (NaN-aware), z3"),
 ]
 NOT_APPLICABLE = []
